@@ -4,7 +4,7 @@ import json
 from .kani import Overlay, native_replay
 
 
-def replay_file(run, path, gen_all, file, tag):
+def replay_file(run, path, gen_all, file, tag, preamble=None):
     with open(path) as f:
         rec = json.load(f)
     rp = rec.get("replay", {})
@@ -15,6 +15,8 @@ def replay_file(run, path, gen_all, file, tag):
         return 2
     h = hs[0]
     ov = Overlay(run, tag)
+    if preamble:
+        ov.preamble(getattr(h, "file", None) or file, preamble)
     ov.add(getattr(h, "file", None) or file, h)
     ov.write()
     worst = 0
